@@ -57,3 +57,17 @@ Check C07_no_panic :
   forall st root i, i <= u32_max ->
   no_panic (load_root st (S (length st)) root) /\
   forall rt, no_panic (get_page st (S (length st)) rt i).
+
+Check C07_full : forall st fuel id a c kids i,
+  let t := Node id a c kids in
+  stored st None t -> accurate t -> acyclic t ->
+  (theight t <= N.to_nat page_depth)%nat -> (theight t < fuel)%nat -> i <= u32_max ->
+  exists rt, load_root st fuel id = Ok rt /\
+    match nth_error (leaves t) (N.to_nat i) with
+    | Some (lid, la, lanc) =>
+      exists p, get_page st fuel rt i = Ok (lid, LNLeaf la p) /\
+                media_box la p = spec_media_box (la :: lanc) /\
+                crop_box la p = spec_crop_box (la :: lanc) /\
+                resources la p = spec_resources (la :: lanc)
+    | None => get_page st fuel rt i = Err EPageOutOfBounds
+    end.
